@@ -212,14 +212,20 @@ type qnode struct {
 // parseAddr canonicalises dial addresses: "mem://addrS" and "addrS" name the same endpoint (like localhost:1 and 127.0.0.1:1).
 func parseAddr(a string) (net.Addr, error) { return memAddr(strings.TrimPrefix(a, "mem://")), nil }
 
+// slowOpts: idle timeout long enough that a live link survives heavy scheduling delays (keep-alive = half of it)
+var slowOpts = &pconn.Opts{Quic: &transport_quic.Opts{MaxIdleTimeoutDur: "1500ms"}}
+
 var fastOpts = &pconn.Opts{Quic: &transport_quic.Opts{MaxIdleTimeoutDur: "400ms"}}
+
+// nodeOpts are the options of the remote endpoints started by startNode (links mode switches to slowOpts)
+var nodeOpts = fastOpts
 
 func startNode(n *memNet, le *logrus.Entry, keyName, addr string) *qnode {
 	ctx, cancel := context.WithCancel(context.Background())
 	k := vio.Key("quicnet/" + keyName)
 	h := &recHandler{}
 	ep := n.bind(addr)
-	t, err := pconn.NewTransport(ctx, le, k, h, fastOpts, 1, ep, parseAddr, nil)
+	t, err := pconn.NewTransport(ctx, le, k, h, nodeOpts, 1, ep, parseAddr, nil)
 	if err != nil {
 		vio.Fatal("pconn: %v", err)
 	}
@@ -732,6 +738,7 @@ func runDial(cases string, out *vio.Out, le *logrus.Entry) {
 // runLinks: histories of QuicLinks.tla against a real pconn transport + real transport controller: remote endpoints
 // (address, identity) connect to the node under test and go away; after each event the controller's registry is read.
 func runLinks(cases string, out *vio.Out, le *logrus.Entry) {
+	nodeOpts = slowOpts
 	type ev struct{ K, A, I string }
 	var hists [][]ev
 	for _, raw := range vio.ReadCases(cases) {
@@ -762,7 +769,7 @@ func runLinks(cases string, out *vio.Out, le *logrus.Entry) {
 			localID, _ := peer.IDFromPrivateKey(lk)
 			ep := n.bind("addrCtl")
 			ctor := func(ctx context.Context, le *logrus.Entry, pkey crypto.PrivKey, h transport.TransportHandler) (transport.Transport, error) {
-				t, err := pconn.NewTransport(ctx, le, pkey, h, fastOpts, 9, ep, parseAddr, nil)
+				t, err := pconn.NewTransport(ctx, le, pkey, h, slowOpts, 9, ep, parseAddr, nil)
 				if err != nil {
 					return nil, err
 				}
@@ -781,6 +788,7 @@ func runLinks(cases string, out *vio.Out, le *logrus.Entry) {
 			nodes := map[string]*qnode{}
 			lnks := map[string]link.Link{}
 			evs := []map[string]any{{"e": "reset", "i": i}}
+			occ := map[string]string{} // address -> identity of the endpoint currently there (QuicLinks.tla state)
 			for _, e := range h {
 				ok := true
 				switch e.K {
@@ -790,7 +798,7 @@ func runLinks(cases string, out *vio.Out, le *logrus.Entry) {
 					}
 					nd := startNode(n, le, e.I, "addr"+e.A)
 					nodes[e.A] = nd
-					dctx, dcancel := context.WithTimeout(ctx, 5*time.Second)
+					dctx, dcancel := context.WithTimeout(ctx, 20*time.Second)
 					l, _, err := nd.tpt.DialPeer(dctx, localID, "addrCtl")
 					dcancel()
 					ok = err == nil && l != nil
@@ -807,23 +815,48 @@ func runLinks(cases string, out *vio.Out, le *logrus.Entry) {
 					delete(nodes, e.A)
 				}
 				evs = append(evs, map[string]any{"e": "ev", "k": e.K, "a": e.A, "i": e.I, "ok": ok})
-				time.Sleep(750 * time.Millisecond) // > idle timeout: every loss has been noticed
-				rep := []map[string]any{}
-				for name, id := range ids {
-					for _, l := range ctrl.GetPeerLinks(id) {
-						closed := false
-						if c, ok := l.(interface{ GetContext() context.Context }); ok {
-							closed = c.GetContext().Err() != nil
+				if e.K == "conn" {
+					occ[e.A] = e.I
+				} else {
+					delete(occ, e.A)
+				}
+				read := func() ([]map[string]any, bool) {
+					rep := []map[string]any{}
+					good := true
+					seen := map[string]string{}
+					for name, id := range ids {
+						for _, l := range ctrl.GetPeerLinks(id) {
+							closed := false
+							if c, ok := l.(interface{ GetContext() context.Context }); ok {
+								closed = c.GetContext().Err() != nil
+							}
+							a := ""
+							if ra, ok := l.(interface{ RemoteAddr() net.Addr }); ok && ra.RemoteAddr() != nil {
+								a = ra.RemoteAddr().String()
+							}
+							if len(a) > 4 {
+								a = a[4:]
+							}
+							rep = append(rep, map[string]any{"addr": a, "id": name, "closed": closed})
+							if closed || occ[a] != name || seen[a] != "" {
+								good = false
+							}
+							seen[a] = name
 						}
-						a := ""
-						if ra, ok := l.(interface{ RemoteAddr() net.Addr }); ok && ra.RemoteAddr() != nil {
-							a = ra.RemoteAddr().String()
-						}
-						if len(a) > 4 {
-							a = a[4:]
-						}
-						rep = append(rep, map[string]any{"addr": a, "id": name, "closed": closed})
 					}
+					return rep, good && len(seen) == len(occ)
+				}
+				// "the registry eventually equals the sessions still open": at least the idle timeout, then until it is right or the bound expires
+				time.Sleep(100 * time.Millisecond)
+				rep, good := read()
+				for dl := time.Now().Add(15 * time.Second); !good && time.Now().Before(dl); {
+					time.Sleep(50 * time.Millisecond)
+					rep, good = read()
+				}
+				if good {
+					// it must also stay right (a late loss callback must not remove a newer link)
+					time.Sleep(150 * time.Millisecond)
+					rep, _ = read()
 				}
 				evs = append(evs, map[string]any{"e": "obs", "reported": rep})
 			}
